@@ -21,7 +21,7 @@ func ngapEntries(c *core.Ctx) []*ssa.Function {
 }
 
 func c03(c *core.Ctx) map[string]interface{} {
-	c.Explanation = "Static check of the inputs and error discipline of the aligned-PER encoder (C03). Decided: (R0.nilglobal) the codec does not dereference a never-initialised package-level pointer on its way (it would panic on every message); (R3.tag) for all structs of ngapType: every aper tag part belongs to the vocabulary the codec parses and its number parses, fields are exported, `optional` sits only on nil-able fields, every CHOICE use site carries valueLB:0,valueUB:n-1 for its n alternatives, ENUMERATED bounds equal the declared enumerators 0..UB, open-type fields name an earlier field, every alternative of an open type has a referenceFieldValue that is unique in its type and equals ProtocolIEID<Field> resp. the procedure code of TS 38.413 9.4.4 for the three message-class containers, <T>Present<Field> constants equal field indices; (R3.schema) every struct of ngapType has exactly the fields, field order, constraint tags and Go types, and every constant (enumerators, Present indices, IE ids, procedure codes) the value, of the frozen TS 38.413 schema table (5630 rows): a widened root, an edited bound, a renumbered enumerator or a moved field changes the encoding of every value of that type and is reported with the row; (R3.types) the tags of the leaf types on the emulator's path equal TS 38.413 9.4.5; (R3.err) in the encoder no error that was created or received is lost: on every path from its creation it is returned or tested, except calls proven infallible (putBitsValue of a constant that fits); (R3.len) the length determinant encoder emits X.691 10.9 forms: one octet 0xxxxxxx up to 127, two octets 10xxxxxx xxxxxxxx up to 16383 (bit provenance), with the same thresholds the decoder uses; (R3.strlen) in the four BIT/OCTET STRING primitives, on every path up to the first length determinant, the count is offset by the lower bound exactly when the size is constrained with ub < 64K and is sent as n itself with the general determinant (X.691 10.9.3.3 / 10.9.3.5), on the encoder and the decoder side; (R3.int) INTEGER octet counting: constrained ranges above 64K count octets of the non-negative value (shift 8), unconstrained/extended ones of the two's complement value (shift 7); (R3.clone) encoder and decoder agree where they are clones: constrained-whole-number guard chains, octets-of-range loops, length-range guards, SEQUENCE OF bounds and lower-bound handling; (R3.mask) BIT STRING padding bits of the last octet are cleared before they reach the wire. NOT decided: that the bit patterns equal X.691 for every value (the arithmetic of the primitives as a whole)."
+	c.Explanation = "Static check of the inputs and error discipline of the aligned-PER encoder (C03). Decided: (R0.nilglobal) the codec does not dereference a never-initialised package-level pointer on its way (it would panic on every message); (R3.tag) for all structs of ngapType: every aper tag part belongs to the vocabulary the codec parses and its number parses, fields are exported, `optional` sits only on nil-able fields, every CHOICE use site carries valueLB:0,valueUB:n-1 for its n alternatives, ENUMERATED bounds equal the declared enumerators 0..UB, open-type fields name an earlier field, every alternative of an open type has a referenceFieldValue that is unique in its type and equals ProtocolIEID<Field> resp. the procedure code of TS 38.413 9.4.4 for the three message-class containers, <T>Present<Field> constants equal field indices; (R3.schema) every struct of ngapType has exactly the fields, field order, constraint tags and Go types, and every constant (enumerators, Present indices, IE ids, procedure codes) the value, of the frozen TS 38.413 schema table (5630 rows): a widened root, an edited bound, a renumbered enumerator or a moved field changes the encoding of every value of that type and is reported with the row; (R3.types) the tags of the leaf types on the emulator's path equal TS 38.413 9.4.5; (R3.err) in the encoder no error that was created or received is lost: on every path from its creation it is returned or tested, except calls proven infallible (putBitsValue of a constant that fits); (R3.len) the length determinant encoder emits X.691 10.9 forms: one octet 0xxxxxxx up to 127, two octets 10xxxxxx xxxxxxxx up to 16383 (bit provenance), with the same thresholds the decoder uses; (R3.strlen) in the four BIT/OCTET STRING primitives, on every path up to the first length determinant, the count is offset by the lower bound exactly when the size is constrained with ub < 64K and is sent as n itself with the general determinant (X.691 10.9.3.3 / 10.9.3.5), on the encoder and the decoder side; (R3.input) no encoder primitive stores into a byte slice it was handed, the idempotent padding mask of appendBitString excepted: encoding leaves the encoded value unchanged; (R3.underflow) every unsigned `x - c` of the encoder that reaches another primitive (the octets-minus-one length field of large constrained INTEGERs among them) has x >= c on all paths; (R3.int) INTEGER octet counting: constrained ranges above 64K count octets of the non-negative value (shift 8), unconstrained/extended ones of the two's complement value (shift 7); (R3.clone) encoder and decoder agree where they are clones: constrained-whole-number guard chains, octets-of-range loops, length-range guards, SEQUENCE OF bounds and lower-bound handling; (R3.mask) BIT STRING padding bits of the last octet are cleared before they reach the wire. NOT decided: that the bit patterns equal X.691 for every value (the arithmetic of the primitives as a whole)."
 	c.Assumptions = []string{"TS 38.413 constraints were transcribed by hand for the listed leaf types", "reflect is used only on exported fields of exported struct types (checked by R3.tag)"}
 	r0nilglobal(c, ngapEntries(c)...)
 	s := buildSchema(c)
@@ -31,6 +31,8 @@ func c03(c *core.Ctx) map[string]interface{} {
 	r3err(c)
 	r3len(c)
 	r3strlen(c)
+	r3input(c)
+	r3underflow(c)
 	r3int(c)
 	r3clone(c)
 	r3mask(c)
@@ -613,5 +615,145 @@ func r3strlen(c *core.Ctx) {
 				c.SoftUndecided("%s: length determinant with range %s and offset %s not classified", spec.fn, o.rng, o.lb)
 			}
 		}
+	}
+}
+
+// ---------------------------------------------------------------- R3.input
+// Encoding does not change the value being encoded: no encoder primitive stores into
+// a slice it received as a parameter (the caller's BitString/OctetString storage).
+// The one store the pinned library has — appendBitString clearing the padding bits of
+// the last octet, which is idempotent — is the argued exception. Any other write makes
+// a second encoding of the same PDU differ from the first.
+func r3input(c *core.Ctx) {
+	const R = "R3.input"
+	c.Rule(R, "no encoder primitive writes into a byte slice it was handed (the value encoded stays what it was)")
+	reach := staticReach(mustFunc(c, pAper, "MarshalWithParams"))
+	n, bad := 0, 0
+	for _, f := range sortedFuncs(reach) {
+		if fnPkgPath(f) != pAper || len(f.Blocks) == 0 {
+			continue
+		}
+		n++
+		p := core.NewPather(f)
+		ord := ordinals{}
+		for _, b := range f.Blocks {
+			for _, in := range b.Instrs {
+				st, ok := in.(*ssa.Store)
+				if !ok {
+					continue
+				}
+				ia, isIA := st.Addr.(*ssa.IndexAddr)
+				if !isIA {
+					continue
+				}
+				base := p.Path(ia.X)
+				// a parameter slice, or a re-slice of one (p1, p1[2:], …) — not the receiver's own buffer
+				isParam := false
+				for i := range f.Params {
+					pn := fmt.Sprintf("p%d", i)
+					if (base == pn || strings.HasPrefix(base, pn+"[")) && i > 0 {
+						if _, isSlice := f.Params[i].Type().Underlying().(*types.Slice); isSlice {
+							isParam = true
+						}
+					}
+				}
+				if !isParam {
+					continue
+				}
+				key := shortFn(f) + ":" + ord.next("store-to-parameter") + ":" + base
+				// the padding mask: bytes[sizes-1] &= 0xff << shift
+				if f.Name() == "appendBitString" {
+					if bo, isAnd := st.Val.(*ssa.BinOp); isAnd && bo.Op == token.AND && strings.HasPrefix(p.Path(bo.X), base+"[") {
+						c.Except(R, key, st.Pos(), "clears the padding bits of the last octet of the caller's BIT STRING: idempotent (a second encoding writes the same octet), and the cleared bits are not part of the value")
+						continue
+					}
+				}
+				bad++
+				c.Fail(R, key, st.Pos(), "%s stores into %s, a slice it received from its caller: the encoded value itself is modified, so encoding the same PDU again (or encoding another PDU that shares the buffer) gives different bytes", shortFn(f), base)
+			}
+		}
+	}
+	if n < 15 {
+		c.Undecided("R3.input: only %d encoder functions reachable from MarshalWithParams", n)
+	}
+	if bad == 0 {
+		c.Ok(R, "aper:encoder-functions", token.NoPos, fmt.Sprintf("%d functions scanned", n))
+	}
+}
+
+// ---------------------------------------------------------------- R3.underflow
+// The encoder counts in unsigned integers. `x - c` on an unsigned x wraps to a huge
+// number when x < c; where such a difference is written to the wire (an "octets
+// minus one" length field, a bit count) the value is then refused ("over capacity")
+// or mis-sized. Every such difference in the encoder needs x >= c on all paths
+// (interval analysis with loop induction, math/bits ranges and one-line helpers).
+func r3underflow(c *core.Ctx) {
+	const R = "R3.underflow"
+	c.Rule(R, "encoder: every unsigned `x - c` that reaches the wire has x >= c on all paths (no wrap-around of an octet or bit count)")
+	reach := staticReach(mustFunc(c, pAper, "MarshalWithParams"))
+	n := 0
+	for _, f := range sortedFuncs(reach) {
+		if fnPkgPath(f) != pAper || len(f.Blocks) == 0 || !strings.Contains(core.FuncName(f), "perRawBitData") {
+			continue
+		}
+		ia := core.NewIntervalAnalyzer(f)
+		p := core.NewPather(f)
+		ord := ordinals{}
+		for _, b := range f.Blocks {
+			for _, in := range b.Instrs {
+				bo, ok := in.(*ssa.BinOp)
+				if !ok || bo.Op != token.SUB {
+					continue
+				}
+				bt, isB := bo.X.Type().Underlying().(*types.Basic)
+				if !isB || bt.Info()&types.IsUnsigned == 0 {
+					continue
+				}
+				k, isK := core.ConstInt(bo.Y)
+				if !isK || k <= 0 {
+					continue
+				}
+				// only differences that flow into a call argument (written to the wire / used as a size)
+				toCall := false
+				seen := map[ssa.Value]bool{}
+				var follow func(v ssa.Value, d int)
+				follow = func(v ssa.Value, d int) {
+					if seen[v] || d > 4 {
+						return
+					}
+					seen[v] = true
+					for _, r := range core.Referrers(v) {
+						switch y := r.(type) {
+						case ssa.CallInstruction:
+							if nm := core.CalleeName(y.Common()); strings.HasPrefix(nm, pAper+".perRawBitData.") {
+								toCall = true
+							}
+						case *ssa.Convert:
+							follow(y, d+1)
+						case *ssa.ChangeType:
+							follow(y, d+1)
+						}
+					}
+				}
+				follow(bo, 0)
+				if !toCall {
+					continue
+				}
+				n++
+				key := shortFn(f) + ":" + ord.next("unsigned-sub") + ":" + clip(p.Path(bo))
+				iv := ia.At(bo.X, b)
+				switch {
+				case iv.Known && iv.Lo >= k:
+					c.Ok(R, key, bo.Pos(), fmt.Sprintf("%s in [%d,%d]", clip(p.Path(bo.X)), iv.Lo, iv.Hi))
+				case iv.Known:
+					c.Fail(R, key, bo.Pos(), "%s can be as small as %d, so %s wraps around in unsigned arithmetic: the count written to the wire is wrong or the value is refused as over capacity (e.g. an octet count of 0 for the value 0)", clip(p.Path(bo.X)), iv.Lo, clip(p.Path(bo)))
+				default:
+					c.SoftUndecided("%s: cannot bound %s from below", shortFn(f), clip(p.Path(bo.X)))
+				}
+			}
+		}
+	}
+	if n == 0 {
+		c.SoftUndecided("R3.underflow: no unsigned difference reaching an encoder primitive found (expected the `octets - 1` length field of appendInteger)")
 	}
 }
